@@ -360,6 +360,7 @@ namespace igris
 
         void erase(iterator newend)
         {
+            igris::array_destructor(newend, end());
             m_size = newend - m_data;
         }
 
